@@ -7,7 +7,7 @@
 namespace ops {
 
 inline const char* const kOptimFn[] = {"align1_default", "align2_static", "align1_numerical_cb_disney", "curvefit_dynamic",
-                                       "analytic_sparse3", "align2_dynamic_ret"};
+                                       "analytic_sparse3", "align2_dynamic_ret", "rosenbrock_rejected_steps", "stiff_group_small_radius"};
 constexpr int kOptimNFn = sizeof(kOptimFn) / sizeof(kOptimFn[0]);
 
 struct CurveData {
@@ -178,6 +178,42 @@ struct OptimOps {
           smooth::wrt(x1, x2), opts);
         put_elem(out, x1);
         put_elem(out, x2);
+        put_result(out, r);
+        break;
+      }
+      case 6: {
+        // a problem on which full Gauss-Newton steps are NOT acceptable: the trust region constrains the
+        // step (the Levenberg parameter search of the linear solver runs) and steps get rejected
+        Eigen::Vector2d x(-1.2 - 0.1 * (double)(op.p[3] & 3), 1.0);
+        Out* outp = &out;
+        opts.max_iter = 40;
+        if (op.p[3] & 4) opts.strat = std::make_shared<smooth::DisneyStrategy>();
+        const auto r = smooth::minimize<Type::Default>(
+          [opp](const auto& v) -> Eigen::Vector2d {
+            h::cb_tick(*opp);
+            return Eigen::Vector2d(10.0 * (v(1) - v(0) * v(0)), 1.0 - v(0));
+          },
+          smooth::wrt(x), [outp](const auto& xi) { put_mat(*outp, xi); }, opts);
+        put_mat(out, x);
+        put_result(out, r);
+        break;
+      }
+      case 7: {
+        // strongly nonlinear residual on the group, far initial guess
+        G x = a;
+        Out* outp = &out;
+        opts.max_iter = 30;
+        const auto r = smooth::minimize<Type::Numerical>(
+          [&b, opp](const auto& v) -> Eigen::Matrix<double, smooth::Dof<G> + 1, 1> {
+            h::cb_tick(*opp);
+            const T e = smooth::rminus(v, b);
+            Eigen::Matrix<double, smooth::Dof<G> + 1, 1> ret;
+            ret.template head<smooth::Dof<G>>() = e.array() * (1.0 + 25.0 * e.array().square());
+            ret(smooth::Dof<G>) = 5.0 * std::sin(3.0 * e.sum());
+            return ret;
+          },
+          smooth::wrt(x), [outp](const auto& xi) { put_elem(*outp, xi); }, opts);
+        put_elem(out, x);
         put_result(out, r);
         break;
       }
